@@ -28,12 +28,13 @@ FLOORS = {
                      **{f'reads:{f}': 500 for f in _FORMS if f != 'rowcol'}),
 }
 FLOORS['quick']['declared:rowcol'] = 30
+FLOORS['quick']['failed_builds'] = 50
 ASSUMPTIONS = [
     'computed references (OFFSET / INDIRECT) are outside the statement and are not generated',
     'address strings are parsed by the harness itself (sheet!A1[:B2]); unbounded forms are matched by name',
 ]
 
-STATE = {'comp': None, 'ctx': None, 'meta': None, 'spec': None, 'found': []}
+STATE = {'comp': None, 'ctx': None, 'meta': None, 'spec': None, 'found': [], 'reads': set()}
 
 
 def parse(address):
@@ -87,16 +88,25 @@ def listener(event, info):
             'read-not-declared', f'{x} ({formula.python_code}) read {read} which is not covered by its '
             f'declared precedents {sorted(declared)}', x))
         return
-    node = comp.cell_map.get(x)
-    if node is None or node not in comp.dep_graph:
-        STATE['found'].append(('reader-not-in-graph', f'{x} reads {read} but is not a graph node', x))
-        return
-    preds = {p.address.address for p in comp.dep_graph.predecessors(node)}
-    ctx.count('edge_checks')
-    if not covered(read, preds):
-        STATE['found'].append((
-            'read-without-edge', f'{x} read {read}; declared {sorted(declared)} but its graph '
-            f'predecessors are only {sorted(preds)}', x))
+    # the edge is checked when the public call has returned (a build that failed earlier may leave
+    # queued edge work which pycel finishes during the next build, i.e. possibly after this read)
+    STATE['reads'].add((x, read))
+
+
+def check_read_edges(ctx, comp):
+    found = []
+    g = comp.dep_graph
+    for x, read in sorted(STATE['reads']):
+        node = comp.cell_map.get(x)
+        if node is None or node not in g:
+            found.append(('reader-not-in-graph', f'{x} reads {read} but is not a graph node', x))
+            continue
+        preds = {p.address.address for p in g.predecessors(node)}
+        ctx.count('edge_checks')
+        if not covered(read, preds):
+            found.append(('read-without-edge', f'{x} read {read} but its graph predecessors are only '
+                          f'{sorted(preds)}', x))
+    return found
 
 
 def install():
@@ -113,7 +123,7 @@ def quiescent(ctx, comp, spec, meta):
     g = comp.dep_graph
     for x, node in list(comp.cell_map.items()):
         formula = getattr(node, 'formula', None)
-        if not formula:
+        if not formula or x == spec.get('poison'):
             continue
         preds = ({p.address.address for p in g.predecessors(node)} if node in g else set())
         for need in formula.needed_addresses:
@@ -169,7 +179,7 @@ def influence(ctx, comp, spec, meta, rng, base):
 
 def one_workbook(ctx, spec, meta, order, config='mem', rng=None):
     install()
-    STATE.update(ctx=ctx, meta=meta, spec=spec, found=[])
+    STATE.update(ctx=ctx, meta=meta, spec=spec, found=[], reads=set())
     if config == 'xlsx':
         comp = wb.compile_xlsx(spec, f'{ctx.tmpdir}/c04.xlsx', None)
     else:
@@ -177,10 +187,16 @@ def one_workbook(ctx, spec, meta, order, config='mem', rng=None):
     STATE['comp'] = comp
     before = ctx.counters.get('read_events', 0)
     base = {}
+    poison = spec.get('poison')
+    if poison:
+        # a build that fails part-way (reference into a linked workbook, after two good precedents): the
+        # cells built so far must still get their edges when the model is used afterwards
+        o = wb.outcome(comp.evaluate, poison)
+        ctx.count('failed_builds' if o[0] == 'x' else 'poison_did_not_fail')
     for a in order:
         base[a] = wb.outcome(comp.evaluate, a)
     STATE['comp'] = None
-    found = list(STATE['found'])
+    found = list(STATE['found']) + check_read_edges(ctx, comp)
     if not any(o[0] == 'x' for o in base.values()):
         found += quiescent(ctx, comp, spec, meta)
         if rng is not None:
@@ -212,6 +228,15 @@ def run(ctx):
         spec, meta = wbgen.dag(rng, errors=True, formula_ratio=0.7)
         order = wb.all_addresses(spec)
         rng.shuffle(order)
+        first_sheet = spec['sheets'][0][0]
+        fcells = [a for a in meta['formulas'] if a.startswith(first_sheet + '!') and
+                  meta['formulas'][a]['form'] not in ('cse',)]
+        if i % 3 == 0 and len(fcells) >= 2:
+            p1, p2 = rng.sample(fcells, 2)
+            spec = dict(spec, sheets=[[s, dict(c)] for s, c in spec['sheets']])
+            spec['sheets'][0][1]['A20'] = f'={p1.rsplit("!", 1)[1]}+{p2.rsplit("!", 1)[1]}+[1]Other!A1'
+            spec['poison'] = f'{first_sheet}!A20'
+            order = [a for a in order if a != spec['poison']]
         one_workbook(ctx, spec, meta, order, config='xlsx' if i % 5 == 0 else 'mem', rng=rng)
 
 
